@@ -82,7 +82,9 @@ RULE = (
     "nan / length mismatch); weights scaled by 1e-300 ... 1e12, nodes 1e-300 ... 1e12 and one ulp from the ends, scale parameters 1e-12 ... "
     "1e12, intervals of width 1e-12; compositions of two and three transforms (rule / hand-built / one-node / nodes-on-the-ends grid -> "
     "LinearFinite onto a strict sub-interval, either orientation -> any finite-domain class -> a half-line class or an InverseRTransform), "
-    "every stage against the model."
+    "every stage against the model; the GRID handed to transform_1d_grid with points of dtype int64 / int32 / bool / float32, weights of those dtypes, "
+    "read-only / strided / negative-stride arrays, for every transform class plain and through InverseRTransform (integer-valued parameters, "
+    "LinearFinite of odd width), compared with the model at the float64 values."
 )
 TRUSTED_BASE = [
     "Lean 4.33 kernel; Mathlib; axioms propext, Classical.choice, Quot.sound only (audited per theorem)",
